@@ -179,6 +179,7 @@ type Runner struct {
 
 	retained []retainedVal // C10: copying-Get results checked after close
 	baseErrs int
+	aborted  bool // the store was closed with Abort: ErrAborted reports are provoked
 	lastFired int // injected file faults seen at the last background-error check
 
 	preDirFiles []string
@@ -679,6 +680,11 @@ func (r *Runner) unprovoked() bool {
 	if n := r.E.BgErrCount(); n > r.baseErrs {
 		r.baseErrs = n
 		if r.E.Lower != nil && len(r.E.Lower.FailPlan) > 0 && strings.Contains(r.E.LastBgErr(), ErrInjected.Error()) {
+			return false
+		}
+		if le := r.E.LastBgErr(); r.aborted && (strings.Contains(le, "operation-aborted") || le == moss.ErrClosed.Error()) {
+			// the store was closed (with Abort) under a round in flight
+			r.cnt("abort.errors_surfaced", 1)
 			return false
 		}
 		if r.E.FS != nil {
@@ -1703,6 +1709,27 @@ func (r *Runner) reopen(kind string) bool {
 				r.viol("close", "collection-close-error", "", err.Error())
 				return false
 			}
+		case "abort":
+			// Store.CloseEx(Abort) while a persistence / compaction round is
+			// parked in mid-flight, then Collection.Close (gates open once
+			// Close has signalled stop): the round in flight may be given up
+			// (ErrAborted through OnError), but whatever a reopen finds must
+			// still be a prefix not older than what the store had exposed.
+			r.aborted = true
+			if err := e.AbortStore(); err != nil {
+				r.viol("close", "store-close-error", "abort", err.Error())
+				return false
+			}
+			for _, h := range r.handles {
+				h.SawStoreClose = true
+			}
+			if err := e.CloseCollMid(); err != nil {
+				if strings.HasPrefix(err.Error(), "watchdog") {
+					return r.watchdog(err.Error())
+				}
+				r.viol("close", "collection-close-error", "", err.Error())
+				return false
+			}
 		default: // early
 			if err := e.CloseColl(); err != nil {
 				r.viol("close", "collection-close-error", "", err.Error())
@@ -1739,6 +1766,7 @@ func (r *Runner) reopen(kind string) bool {
 		return false
 	}
 	r.cnt("reopens."+kind, 1)
+	r.aborted = false
 	// Identify the reopened prefix.
 	var snap moss.Snapshot
 	err := Safe(func() error { var err error; snap, err = e.Coll.Snapshot(); return err })
